@@ -1,6 +1,6 @@
 //go:build verif
 
-package main
+package ctops
 
 import "github.com/oasisprotocol/curve25519-voi/curve"
 
@@ -10,6 +10,6 @@ func graftInit() { lookup = curve.VerifNewLookup(pts[1]) }
 
 // table lookups with a secret signed digit in [-8, 8]
 var graftOps = map[string]func(){
-	"Lookup(projective niels, secret digit)": func() { putE(lookup.Projective(int8(cur[0]%17) - 8)) },
-	"Lookup(affine niels, secret digit)":     func() { putE(lookup.Affine(int8(cur[0]%17) - 8)) },
+	"Lookup(projective niels, secret digit)": func() { putE(lookup.Projective(int8(Cur[0]%17) - 8)) },
+	"Lookup(affine niels, secret digit)":     func() { putE(lookup.Affine(int8(Cur[0]%17) - 8)) },
 }
